@@ -179,6 +179,8 @@ struct Ctx {
     std::set<uint64_t> states;		// distinct model digests seen
     uint64_t interleave = 0xcbf29ce484222325ULL;	// hash of the task-id sequence
     bool nontrivial = false;
+    bool strict_enomem = false;	// C12: a call failing under an allocation fault must report ENOMEM
+    std::vector<long> main_allocs;	// per operation: VNA-domain allocations made by fault-armed calls
     long cur_op = -1;
 
     void log(const char *fmt, ...) __attribute__((format(printf, 2, 3)));
@@ -197,7 +199,37 @@ struct LibCall {
     ~LibCall();
     void done();	// end of the library call (captures errno)
     bool finished = false;
+    bool armed = false;
 };
+
+// true when any injected fault fired inside the current library call bracket
+static inline bool sim_fault_fired()
+{
+    return g_sim.fired_vna > 0 || g_sim.fired_yaml > 0 || g_sim.fired_read_eio || g_sim.fired_read_eof || g_sim.fired_write_err ||
+	g_sim.fired_close_err || g_sim.fired_open;
+}
+static inline bool sim_alloc_fault_fired() { return g_sim.fired_vna > 0; }
+// a library call failed while an injected fault fired: strict clause of C12 (errno ENOMEM for an
+// allocation fault), bookkeeping; the caller then re-issues the call without the fault
+void fault_failed(Ctx &c, const std::string &what, int err, bool alloc_fault);
+// the re-issued call succeeded: so the first failure was caused by the fault alone, and (C12) an
+// allocation fault must then have been reported as ENOMEM
+void fault_recovered(Ctx &c, const std::string &what, int first_err, bool alloc_fault);
+
+// Issue a library call with the operation's attached faults armed; if it fails because a fault
+// fired, re-issue it once without faults ("once faults stop, progress resumes within one step").
+// BODY assigns its results to variables of the enclosing scope; ERRVAR receives errno.
+#define LIB_RETRY(c, opp, what, ERRVAR, FAILED, BODY) \
+    for (int lib_try_ = 0, lib_pend_err_ = 0, lib_pend_alloc_ = 0;; ++lib_try_) { \
+	LibCall lc((c), lib_try_ == 0 ? (opp) : nullptr); \
+	BODY; \
+	bool lib_fired_ = sim_fault_fired(), lib_alloc_ = sim_alloc_fault_fired(); \
+	lc.done(); \
+	ERRVAR = lc.saved_errno; \
+	if (lib_try_ == 0 && lib_fired_ && (FAILED) && !(c).violated) { lib_pend_err_ = lc.saved_errno; lib_pend_alloc_ = lib_alloc_; fault_failed((c), (what), lc.saved_errno, lib_alloc_); continue; } \
+	if (lib_try_ == 1 && !(FAILED)) fault_recovered((c), (what), lib_pend_err_, lib_pend_alloc_ != 0); \
+	break; \
+    }
 
 // engines
 typedef void (*EngineRun)(Ctx &, const Plan &);
